@@ -1,8 +1,27 @@
-(* C14 — property theorems (bootstrap stage; see DESIGN.md section 6). *)
-From Verif Require Import WriterSM.
-Definition C14_sticky_error := @sticky_error.
-Print Assumptions C14_sticky_error.
-Definition C14_no_destination_call_after_error := @sticky_error_no_destination_call.
-Print Assumptions C14_no_destination_call_after_error.
-Definition C14_failed_call_sets_error := @step_failed_sets_error.
+(* C14 — property theorems.  Model: WModel/{LZ77,Codes,Encode,Compressor,WriterSM}.v — the pure-Go writer (acceleration level 0), compared byte for byte with the implementation on every run; the assembly levels are tied to it by the run-time contract checks (DESIGN.md 4.3).  Stores by assembly outside the buffers are observed at run time (crash detection), not proved.
+   Only statements, each closed by `exact`, followed by Print Assumptions. *)
+From Verif Require Import FinalSpec WriterTheorems WriterStateProofs TraceContent.
+Open Scope N_scope.
+
+(* (a) a destination failure makes the operation in progress fail and sets the error *)
+Theorem C14_failed_call_sets_error : forall fuel (w : writer comp) o w',
+  we comp w = ENone -> not_reset o ->
+  wstep comp c_accumulate c_compress c_flush c_close (c_reset_to None) fuel w o = Some (w', true) ->
+  we comp w' = EDest.
+Proof. exact (step_failed_sets_error comp c_accumulate c_compress c_flush c_close (c_reset_to None)). Qed.
 Print Assumptions C14_failed_call_sets_error.
+
+(* (b) until Reset every later call fails and the writer -- destination included -- is untouched *)
+Theorem C14_fault_sticky : fault_sticky_statement.
+Proof. exact WriterStateProofs.fault_sticky. Qed.
+Print Assumptions C14_fault_sticky.
+
+(* (c) the model never indexes its input out of bounds, in any reachable state *)
+Theorem C14_no_out_of_bounds : no_oob_statement.
+Proof. exact TraceContent.no_oob. Qed.
+Print Assumptions C14_no_out_of_bounds.
+
+(* (d) a healthy destination never makes an operation fail; then C01 gives the complete stream *)
+Theorem C14_healthy_no_error : healthy_no_error_statement.
+Proof. exact WriterStateProofs.healthy_no_error. Qed.
+Print Assumptions C14_healthy_no_error.
